@@ -24,6 +24,13 @@ CLAIMED = {
             "outputs compared with the model and checked by the same oracle inside Coq.",
             "Trusted: Coq kernel + vm_compute; coq/Model/Buffers.v; the runner's scripted `random` stub and view canonicalisation; pickle round trip. Theorems are about the model.",
             "DESIGN.md §4 C11"),
+    "C06": ("Coq refinement proof: the anchor arithmetic of TimeController refines the abstract scaled/pausable clock, for every operation history over Q + differential correspondence on a virtual raw clock",
+            "Machine-checked refinement: for every history of read/set-scale/pause/resume/export/load/sleep operations with any rational arguments and any real-time advance between them, "
+            "every output of the model of time.py equals the output of the abstract clock 'value grows at rate scale while not paused' (hence monotone, still while paused, continuous across "
+            "scale changes / pause / resume, pure reads and exports, continues after load, sleep(d) lasts d/scale). The model is tied to /repo by re-executing pamiq_core/time.py on a virtual "
+            "stdlib time module and comparing all three channels exactly (dyadic values) inside Coq, against both the code model and the abstract clock.",
+            "Trusted: Coq kernel + vm_compute; coq/Model/Clock.v; harness/sim/faketime.py; exactness of float arithmetic on the generated dyadic values. Real time advances only between operations; float rounding not modelled.",
+            "DESIGN.md §4 C06"),
 }
 REASON_TODO = "not claimed at this commit: model and correspondence for this property are not built yet (plan in DESIGN.md §4)"
 
